@@ -51,7 +51,7 @@ class Program(object):
         return statements
 
     @classmethod
-    def process_mnemonics(cls, statements):
+    def process_mnemonics(cls, statements, including=None):
         """
         Given a list of statements, processes the mnemonics on each statement, and
         assigns each statement an Instruction object. If the statement is the
@@ -62,15 +62,18 @@ class Program(object):
         :return: a list of processed statements
         """
         processed_statements = []
+        including = including or []
         for statement in statements:
             include_filename = statement.get_include_filename()
             if include_filename:
+                if include_filename in including:
+                    raise TranslationError("Recursive INCLUDE of [{}]".format(include_filename), statement)
                 include_source = SourceFile(include_filename)
                 try:
                     include_source.read_file()
                 except OSError as error:
                     raise TranslationError("Unable to include [{}]: {}".format(include_filename, error), statement)
-                include = cls.process_mnemonics(cls.parse(include_source.get_buffer()))
+                include = cls.process_mnemonics(cls.parse(include_source.get_buffer()), including + [include_filename])
                 processed_statements.extend(include)
             else:
                 processed_statements.extend([statement])
